@@ -290,6 +290,8 @@ class Walker:
             self.ev(p, "store", node, subst(target, p.env), value)
             p.events[-1].raw = target
             cur = p.env.get(target.value.id) if isinstance(target.value, ast.Name) else None
+            if isinstance(cur, ast.DictComp):
+                cur = ast.Dict(keys=[None], values=[cur])
             if isinstance(cur, ast.Dict) and not isinstance(target.slice, (ast.Slice, ast.Tuple)):
                 # d[k] = v on a local dict literal: the literal grows (last writer wins, as in {**d, k: v})
                 val = value
